@@ -5,13 +5,17 @@ import (
 	"fmt"
 	"os"
 	"path/filepath"
+	"runtime"
+	"strings"
 	"syscall"
 	"testing"
+	"time"
 
 	"github.com/hashicorp/raft"
 	wal "github.com/hashicorp/raft-wal"
 	"github.com/hashicorp/raft-wal/segment"
 	"github.com/hashicorp/raft-wal/types"
+	"go.etcd.io/bbolt"
 	"pgregory.net/rapid"
 
 	"verifharness/common"
@@ -471,3 +475,151 @@ func TestC11Lock(t *testing.T) {
 }
 
 var _ = simfs.New
+
+// ---- real stack: a damaged metadata record in the bolt file. Open must return (no hang) and leave nothing locked.
+
+type MetaRealCase struct {
+	Sizes []int `json:"sizes"`
+	Mut   Mut   `json:"mut"`
+}
+
+func runMetaReal(c MetaRealCase) (res common.Result) {
+	dir, err := os.MkdirTemp("", "verif-metareal-")
+	if err != nil {
+		res.Fail = common.Failf("harness", "%v", err)
+		return
+	}
+	defer os.RemoveAll(dir)
+	cfg := kit.Cfg{SegSize: 256, Dir: dir}
+	w, err := cfg.Open()
+	if err != nil {
+		res.Fail = common.Failf("harness", "%v", err)
+		return
+	}
+	for i, sz := range c.Sizes {
+		if err := w.StoreLogs([]*raft.Log{kit.EntrySpec{DataLen: sz, Seed: uint8(i)}.Make(uint64(i+1), 0)}); err != nil {
+			w.Close()
+			res.Fail = common.Failf("harness", "%v", err)
+			return
+		}
+		kit.Barrier(w)
+	}
+	w.Close()
+	// damage the record with bbolt directly
+	dbPath := filepath.Join(dir, "wal-meta.db")
+	db, err := bbolt.Open(dbPath, 0o600, nil)
+	if err != nil {
+		res.Fail = common.Failf("harness", "%v", err)
+		return
+	}
+	effective := false
+	err = db.Update(func(tx *bbolt.Tx) error {
+		b := tx.Bucket([]byte("wal-meta"))
+		raw := append([]byte(nil), b.Get([]byte("m"))...)
+		out, ok := MutateMetaRaw(raw, c.Mut)
+		if !ok {
+			return nil
+		}
+		effective = true
+		return b.Put([]byte("m"), out)
+	})
+	db.Close()
+	if err != nil {
+		res.Fail = common.Failf("harness", "%v", err)
+		return
+	}
+	if !effective {
+		res.Classes = []string{"mutation-ineffective"}
+		return
+	}
+	res.NonTrivial = true
+	res.Classes = []string{"real-meta:" + c.Mut.Kind}
+	before := countFDsUnder(dir)
+	type openRes struct {
+		w   *wal.WAL
+		err error
+	}
+	open := func() (openRes, bool, string) {
+		ch := make(chan openRes, 1)
+		go func() {
+			w, err := cfg.Open()
+			ch <- openRes{w, err}
+		}()
+		select {
+		case r := <-ch:
+			return r, true, ""
+		case <-time.After(20 * time.Second):
+			buf := make([]byte, 1<<20)
+			return openRes{}, false, string(buf[:runtime.Stack(buf, true)])
+		}
+	}
+	r, returned, dump := open()
+	if !returned {
+		// stack evidence: somebody must be parked inside raft-wal / bbolt on behalf of Open
+		for _, g := range strings.Split(dump, "\n\n") {
+			if strings.Contains(g, "raft-wal.Open") || strings.Contains(g, "raft-wal/metadb") {
+				if len(g) > 1500 {
+					g = g[:1500]
+				}
+				res.Fail = common.Failf("open-hangs", "wal.Open on a directory whose metadata record was damaged (%s) did not return within 20s; it is parked here:\n%s", c.Mut.Kind, g)
+				return
+			}
+		}
+		common.Inconclusive("Open did not return but no raft-wal frame is on any stack")
+	}
+	if r.err == nil {
+		res.Classes = append(res.Classes, "real-meta-open-ok")
+		r.w.Close()
+		return
+	}
+	res.Classes = append(res.Classes, "real-meta-open-error")
+	f, ferr := os.OpenFile(dbPath, os.O_RDWR, 0)
+	if ferr == nil {
+		lerr := syscall.Flock(int(f.Fd()), syscall.LOCK_EX|syscall.LOCK_NB)
+		if lerr == nil {
+			syscall.Flock(int(f.Fd()), syscall.LOCK_UN)
+		}
+		f.Close()
+		if lerr != nil {
+			res.Fail = common.Failf("open-failed-leaks-lock", "Open failed (%v) on a damaged metadata record but wal-meta.db is still locked by this process", r.err)
+			return
+		}
+	}
+	if after := countFDsUnder(dir); after != before {
+		res.Fail = common.Failf("open-failed-leaks-handles", "Open failed (%v) but left %d descriptors open in the directory", r.err, after-before)
+		return
+	}
+	// a second Open must return as well
+	r2, returned, dump := open()
+	if !returned {
+		res.Fail = common.Failf("open-hangs", "the second Open of the same directory did not return within 20s:\n%s", firstWith(dump, "raft-wal"))
+		return
+	}
+	if r2.err == nil {
+		r2.w.Close()
+	}
+	return
+}
+
+func firstWith(dump, needle string) string {
+	for _, g := range strings.Split(dump, "\n\n") {
+		if strings.Contains(g, needle) {
+			if len(g) > 1500 {
+				g = g[:1500]
+			}
+			return g
+		}
+	}
+	return ""
+}
+
+func TestC11MetaReal(t *testing.T) {
+	common.Run(t, "C11", "C11MetaReal", func(t *rapid.T) MetaRealCase {
+		c := MetaRealCase{}
+		for i := 0; i < rapid.IntRange(1, 7).Draw(t, "n"); i++ {
+			c.Sizes = append(c.Sizes, rapid.SampledFrom([]int{10, 60, 100}).Draw(t, "sz"))
+		}
+		c.Mut = genMut(t, true)
+		return c
+	}, runMetaReal)
+}
